@@ -67,7 +67,7 @@ def _branch_env(fi, stmts, atoms, env0=None):
         if isinstance(st, ast.Assign) and len(st.targets) == 1 and \
                 isinstance(st.targets[0], ast.Name):
             try:
-                env[st.targets[0].id] = from_ast(st.value, atoms, env)
+                env[st.targets[0].id] = from_ast(st.value, atoms, env, auto=True)
             except NotPolynomial as e:
                 raise AnalysisError('%s: %s is not polynomial arithmetic (%s)'
                                     % (fi.qual, st.targets[0].id, e))
@@ -112,7 +112,7 @@ def r4(ctx):
         at["duct['L/2'][i]"] = 'L2' if 'L2' in genv else None
         at = {k: v for k, v in at.items() if v}
         e = from_ast(h[0][1]['Q_v'], {**gat, **{
-            "duct['L/2'][i]": '_L2', "duct['L^2/4'][i]": '_L24'}})
+            "duct['L/2'][i]": '_L2', "duct['L^2/4'][i]": '_L24'}}, auto=True)
         if '_L2' in e.n.symbols() | e.d.symbols():
             e = e.subs('_L2', genv['L2'])
         if '_L24' in e.n.symbols() | e.d.symbols():
@@ -168,9 +168,9 @@ def r4(ctx):
         if 'c1' not in env or 'c2' not in env:
             raise AnalysisError('_calc_duct_temp %s branch: c1/c2' % name)
         c1, c2 = geo(env['c1']), geo(env['c2'])
-        Tmw = geo(from_ast(mw[0][1]['Q_v'], atoms, env))
-        Tin = geo(from_ast(s_in[0][1]['Q_v'], atoms, env))
-        Tout = geo(from_ast(s_out[0][1]['Q_v'], atoms, env))
+        Tmw = geo(from_ast(mw[0][1]['Q_v'], atoms, env, auto=True))
+        Tin = geo(from_ast(s_in[0][1]['Q_v'], atoms, env, auto=True))
+        Tout = geo(from_ast(s_out[0][1]['Q_v'], atoms, env, auto=True))
         # slab profile
         def T(x):
             return -q * x * x / (Rat.const(2) * k) + c1 * x + c2
